@@ -20,7 +20,9 @@ type thread struct {
 	name    string
 	spin    bool     // unused
 	waitFor uint64   // fair yield: bitmask of thread ids that must step (or stop being enabled) first
-	hist    []string // op signatures since another thread last stepped (stutter detection)
+	hist    []uint64 // hashes of (operation, result) since another thread last stepped (stutter detection)
+	polling bool     // the thread is inside a loop whose iterations repeat the same operations with the same results
+	loop    []uint64 // the (operation, result) hashes of that loop's body
 	exited  chan struct{}
 	hb      uint64 // hash of this thread's last step
 	seq     int
@@ -332,6 +334,10 @@ func SpinYield() {
 		return
 	}
 	t := x.running
+	if len(t.hist) > 0 {
+		t.loop = append(t.loop[:0], t.hist...)
+	}
+	t.polling = true
 	x.yield(t)
 	x.point(&pending{kind: "spin", enabled: func() bool { return true }})
 }
@@ -380,6 +386,20 @@ func (x *Exec) foldResult(t *thread, v uint64) {
 	x.fp ^= h
 	x.stepHash = h
 	x.seqHash = mix(x.seqHash, h)
+}
+
+// NoteResult folds the result of the operation the running thread has just performed (value
+// returned by an atomic, chosen select case and channel occupancy) into the repetition
+// histories: a loop is treated as polling only if its operations also return the same results.
+func (x *Exec) NoteResult(v uint64) {
+	if n := len(x.ghist); n > 0 {
+		x.ghist[n-1] = mix(x.ghist[n-1], v+1)
+	}
+	if t := x.running; t != nil {
+		if n := len(t.hist); n > 0 {
+			t.hist[n-1] = mix(t.hist[n-1], v+1)
+		}
+	}
 }
 
 // TouchW marks obj as written by the current step / environment event (used by shims
@@ -530,11 +550,24 @@ func (x *Exec) schedule(t *thread) {
 		} else {
 			x.freeFire = 0
 		}
-		if x.idleDue && len(free) > 0 && len(paid) > 0 {
-			// the running threads only repeat themselves: continuing them is not an alternative,
-			// the earliest timer/deadline fires (the other armed ones remain paid alternatives)
+		allPolling := len(free) > 0
+		for _, c := range free {
+			if !c.th.polling {
+				allPolling = false
+			}
+		}
+		if (x.idleDue || allPolling) && len(free) > 0 && len(paid) > 0 {
+			// the running threads only repeat themselves: the earliest timer/deadline fires by
+			// default (the other armed ones remain paid alternatives); continuing to poll is still
+			// possible but costs a preemption, so the subtree of "keep polling" stays bounded
 			paid[0].cost = costFree
-			cands = append([]cand{}, paid...)
+			spin := cands
+			cands = append([]cand{}, paid[0])
+			for _, c := range spin {
+				c.cost = costP // going on polling instead of letting time pass is a (bounded) deviation
+				cands = append(cands, c)
+			}
+			cands = append(cands, paid[1:]...)
 			x.IdleFires++
 		} else {
 			cands = append(cands, paid...)
@@ -555,6 +588,9 @@ func (x *Exec) schedule(t *thread) {
 			}
 			x.ghist = x.ghist[:0]
 			x.idleDue = false
+			for _, v := range x.threads {
+				v.polling = false // time has passed: whatever they poll for may have changed
+			}
 			h := mix(hashStr("env:"+c.env.name), uint64(c.env.id))
 			x.fp ^= h
 			x.stepHash = h
@@ -571,13 +607,26 @@ func (x *Exec) schedule(t *thread) {
 				v.hist = nil
 			}
 		}
-		u.hist = append(u.hist, sig)
-		x.ghist = append(x.ghist, mix(uint64(u.id)+1, hashStr(sig)))
-		if n := len(x.ghist); n >= 12 {
-			for k := 6; k <= 48 && 2*k <= n; k++ {
+		if u.polling && len(u.hist) > 0 {
+			last, in := u.hist[len(u.hist)-1], false
+			for _, h := range u.loop {
+				if h == last {
+					in = true
+					break
+				}
+			}
+			if !in && last != hashStr("spin <nil>") {
+				u.polling = false // it left the loop (an operation or a result not seen in the loop body)
+			}
+		}
+		// Repetition checks run on the entries recorded so far: their results have been folded in
+		// (NoteResult), the entry of the step chosen now is appended afterwards.
+		if n := len(x.ghist); n >= 18 {
+			// the same block of (thread, operation, result) steps three times in a row
+			for k := 6; k <= 48 && 3*k <= n; k++ {
 				same := true
 				for i := 0; i < k; i++ {
-					if x.ghist[n-1-i] != x.ghist[n-1-k-i] {
+					if x.ghist[n-1-i] != x.ghist[n-1-k-i] || x.ghist[n-1-i] != x.ghist[n-1-2*k-i] {
 						same = false
 						break
 					}
@@ -590,7 +639,7 @@ func (x *Exec) schedule(t *thread) {
 				}
 			}
 			if n > 256 {
-				x.ghist = append(x.ghist[:0], x.ghist[n-128:]...)
+				x.ghist = append(x.ghist[:0], x.ghist[n-160:]...)
 			}
 		}
 		if n := len(u.hist); n >= 4 {
@@ -603,11 +652,15 @@ func (x *Exec) schedule(t *thread) {
 					}
 				}
 				if same {
+					u.loop = append(u.loop[:0], u.hist[n-k:]...)
+					u.polling = true
 					x.yield(u) // identical block repeated with nobody else stepping: stutter loop
 					break
 				}
 			}
 		}
+		u.hist = append(u.hist, hashStr(sig))
+		x.ghist = append(x.ghist, mix(uint64(u.id)+1, hashStr(sig)))
 		if x.KeepTrc {
 			x.Trace = append(x.Trace, fmt.Sprintf("T%d %s @ %s", u.id, u.pend.describe(), u.pend.site))
 		}
